@@ -113,6 +113,35 @@ def _c15_shrink(toks):
     return out
 
 
+def _c17_tags(toks, impl):
+    if toks[1] == "new":
+        return ["request=new", "words=" + toks[2]]
+    ops = [] if toks[4] == "-" else toks[4].split(",")
+    n = int(toks[2]); ln = 0 if toks[3] == "-" else len(toks[3])
+    t = ["request=hist", "words=%d" % n, "len=max" if ln == (n * 64 - 8) // 2 else "len<max"]
+    for o in ops:
+        if o[0] == "P":
+            pos, m = int(o[1:].split(".")[0]), int(o[1:].split(".")[1])
+            if pos // 32 != (pos + m - 1) // 32:
+                t.append("run-crosses-word-boundary")
+            if (pos + m - 1) // 32 == n - 1:
+                t.append("run-touches-length-word")
+    for o in set(x[0] for x in ops):
+        t.append("op=" + o)
+    return sorted(set(t))
+
+
+def _c13_tags(toks, impl):
+    return ["ktype=" + toks[1], "req=" + toks[2], "container=" + toks[3].split(".")[0]] + (["answer=panic"] if impl == "panic" else [])
+
+
+def _c12_tags(toks, impl):
+    if toks[1] == "exts":
+        return ["req=exts"]
+    ln = 0 if toks[4] == "-" else len(toks[4])
+    return ["ktype=" + toks[1], "container=" + toks[3].split(".")[0], "len=" + ("0-1" if ln <= 1 else "block-boundary" if ln in (31, 32, 33, 63, 64, 65) else "other")]
+
+
 PROPS = {
     "C07": {
         "lean_modules": ["Dbg.Props.C07"],
@@ -147,8 +176,8 @@ PROPS = {
     "C10": {
         "lean_modules": ["Dbg.Props.C10"],
         "theorems": ["Kmer.shipped_wf", "Kmer.shipped_count", "Kmer.C10_get", "Kmer.C10_set", "Kmer.C10_set_inv", "Kmer.C10_extendRight",
-                     "Kmer.C10_extendLeft", "Kmer.C10_fromBytes", "Kmer.C10_rc", "Kmer.C10_toU64"],
-        "partial": ["not yet proved (decided by execution against the string-level reference only): set_slice_mut, from_u64, "
+                     "Kmer.C10_extendLeft", "Kmer.C10_fromBytes", "Kmer.C10_rc", "Kmer.C10_toU64", "Kmer.C10_setSlice"],
+        "partial": ["not yet proved (decided by execution against the string-level reference only): from_u64, "
                     "hamming_dist, at_count/gc_count, to_string, from_ascii, min_rc/is_palindrome, kmers_from_bytes/ascii"],
         "n_quick": 40000, "n_thorough": 4000000,
         "nontrivial": lambda toks, impl: impl != "panic", "tags": _c10_tags,
@@ -164,8 +193,8 @@ PROPS = {
     "C11": {
         "lean_modules": ["Dbg.Props.C11"],
         "theorems": ["Kmer.C11_eq_iff", "Kmer.C11_lt_iff_lex", "Kmer.C11_history", "Kmer.C11_routes_agree", "Kmer.toNat_eq_val"],
-        "partial": ["C11_history covers extend_left/right, extend, rc, set_mut, min_rc from any starting word satisfying the invariant; "
-                    "set_slice_mut steps and the from_u64/from_ascii constructors are not yet in the theorem (they are in the executed histories)"],
+        "partial": ["C11_history covers extend_left/right, extend, rc, set_mut, set_slice_mut, min_rc from any starting word satisfying the "
+                    "invariant (from_bytes establishes it: C10_fromBytes); the from_u64/from_ascii constructors are not yet in the theorem"],
         "n_quick": 6000, "n_thorough": 400000,
         "nontrivial": lambda toks, impl: impl != "panic" and toks[4] != "-" and toks[4].count(",") >= 2, "tags": _c11_tags,
         "rule": "requests `<type> hist <init> <ops> <other>`: a k-mer of one of the 19 types built by from_bytes / from_u64 / from_ascii, then "
@@ -179,8 +208,10 @@ PROPS = {
     },
     "C14": {
         "lean_modules": ["Dbg.Props.C14"],
-        "theorems": [],
-        "partial": [],
+        "theorems": ["DnaStr.C14_block_set", "DnaStr.C14_block_get", "DnaStr.C14_block_order", "DnaStr.C14_blank"],
+        "partial": ["history theorem over push/extend/push_bytes/set/clear/blank/from_* (invariant: block count = ceil(len/32), padding zero; "
+                    "bases = those of the plain vector), repr_inj, cmp_lex, renderers, PackedDnaStringSet: modelled bit for bit and "
+                    "executed against the crate on every run, theorems not yet written"],
         "n_quick": 8000, "n_thorough": 600000,
         "nontrivial": lambda toks, impl: impl != "panic" and (toks[1] == "pset" or toks[2].count(";") >= 2), "tags": _c14_tags,
         "rule": "requests `hist <ops> <other>`: 1-25 operations from push, extend (lengths aimed at len%32 in {0,1,31}), push_bytes, set_mut, "
@@ -194,8 +225,11 @@ PROPS = {
     },
     "C15": {
         "lean_modules": ["Dbg.Props.C15"],
-        "theorems": [],
-        "partial": [],
+        "theorems": ["DnaStr.Slice.get_slice", "DnaStr.Slice.slice_length", "DnaStr.Slice.slice_isSome", "DnaStr.Slice.get_rc_fwd",
+                     "DnaStr.Slice.rc_rc", "DnaStr.Slice.rc_fields", "DnaStr.Slice.complement_spec", "DnaStr.Slice.sliceOf_spec",
+                     "DnaStr.Slice.prefix_spec", "DnaStr.Slice.suffix_spec", "DnaStr.Slice.debug_eq_display"],
+        "partial": ["list-level characterisation of bytes/ascii/to_owned/== and hammingDist = countDiff (rests on the C14 refinement, not yet proved); "
+                    "get_kmer of a view (rests on the block walk of C13)"],
         "n_quick": 6000, "n_thorough": 400000,
         "nontrivial": lambda toks, impl: impl != "panic" and (toks[1] == "ham" or toks[3].count(",") >= 1), "tags": _c15_tags,
         "shrink": _c15_shrink,
@@ -206,5 +240,49 @@ PROPS = {
                 "with 0-4 differences planted at positions 0, 31, 32, 1023, 1024, n/2, n-1. Non-trivial = ham, or nesting depth >= 2.",
         "trusted_base": [],
         "assumptions": ["interval arguments inside the view (outside: the crate asserts; compared as panic)"],
+    },
+    "C17": {
+        "lean_modules": ["Dbg.Props.C17"],
+        "theorems": ["Lmer.C17_word_set", "Lmer.C17_word_get", "Lmer.C17_new_len"],
+        "partial": ["multi-word set_slice_mut (incl. the length-byte protection), rc, get_kmer, repr_inj for every word count: modelled bit for "
+                    "bit and executed against the crate on every run, theorems not yet written"],
+        "n_quick": 8000, "n_thorough": 600000,
+        "nontrivial": lambda toks, impl: impl != "panic" and toks[1] == "hist" and toks[4] != "-", "tags": _c17_tags,
+        "rule": "requests `hist <n> <seq> <ops>`: an Lmer of n = 1..6 words built by from_slice from a sequence of length 0..max_len (max_len and "
+                "max_len-1/-2 favoured), then 0-8 operations set_mut / set_slice_mut (runs crossing a word boundary and runs inside the word "
+                "that holds the length byte favoured, random garbage below the run) / rc; after every step the raw words are observed; at "
+                "the end len, bases, == and hash against from_slice of the same bases. `new <n> <len>`. Non-trivial = at least one operation.",
+        "trusted_base": ["#[derive(PartialEq, Eq, Ord, Hash)] on Lmer are structural on the word array"],
+        "assumptions": ["len <= max_len, positions < len, run inside the string"],
+    },
+    "C13": {
+        "lean_modules": ["Dbg.Props.C13"],
+        "theorems": ["KIter.C13_bytes_getKmer", "KIter.C13_bytes_getKmer_guard"],
+        "partial": ["block walk of DnaString/Lmer::get_kmer (induction over blocks using C10_setSlice), the slice remap, KmerIter/KmerExtsIter "
+                    "state machines, first/last/term accessors: modelled and executed against the crate and the window reference on every run, "
+                    "theorems not yet written"],
+        "n_quick": 12000, "n_thorough": 800000,
+        "nontrivial": lambda toks, impl: impl not in ("panic", "-"), "tags": _c13_tags,
+        "rule": "requests `<ktype> getkmer|iter|iterexts|term <container> <seq> [arg]` over 12 k-mer types (K = 2..64, all five storage widths) and "
+                "containers DnaString, forward and reverse-complemented DnaStringSlice at random offsets inside a longer string, Lmer of "
+                "1,2,3,4,6 words (25% at max_len), DnaBytes, DnaSlice; sequence lengths: < K and = K (1/6), block boundaries 31..97 (1/6), "
+                "K..K+80; every k-mer answer carries the raw storage word. Non-trivial = the answer contains at least one k-mer.",
+        "trusted_base": [],
+        "assumptions": ["positions with pos + K <= len (outside: asserted by the crate)"],
+    },
+    "C12": {
+        "lean_modules": ["Dbg.Props.C12", "Dbg.Props.C10"],
+        "theorems": ["KSpec.rc_rc", "KSpec.rc_getElem", "KSpec.windows_rc", "Kmer.C12_kmer_rc_involution", "Kmer.C12_minRc_spec", "Kmer.C12_minRc_rc",
+                     "Kmer.C12_minRcFlip", "Kmer.C12_isPalindrome", "Compress.C12_exts_rc", "Kmer.C10_rc"],
+        "partial": ["rc of DnaString, Lmer and slices refines the list rc (rests on C14/C17/C15 refinements, not yet proved; executed on every run)"],
+        "n_quick": 8000, "n_thorough": 500000,
+        "nontrivial": lambda toks, impl: impl != "panic", "tags": _c12_tags,
+        "harness_key": "C12",
+        "rule": "requests `<ktype> rc <container> <seq>`: rc, rc∘rc and the k-mers of the reverse complement for DnaString, DnaStringSlice (both "
+                "orientations, inner offsets) and Lmer (1-6 words), lengths 0, 1, block boundaries and random; `exts <hex>` for extension "
+                "bytes (all 256 in the corpus). Verdict: rc = reversed complemented bases, rc∘rc = identity, i-th k-mer of rc = rc of the "
+                "(n-K-i)-th k-mer; Exts: sides swapped, bases complemented. The k-mer instance (min_rc, flip, palindrome) is in the C10 requests.",
+        "trusted_base": [],
+        "assumptions": [],
     },
 }
